@@ -31,6 +31,7 @@ type legResult struct {
 	hashes     map[uint64]struct{}
 	wall       float64
 	determ     string
+	procs      int
 }
 
 type violation struct {
@@ -51,6 +52,7 @@ type procResult struct {
 	output string
 	kind   string // "" (exited by itself) | "mem" (RSS watchdog) | "hang" (no progress) | "timeout"
 	status engine.StatusSnapshot
+	pid    int
 }
 
 const (
@@ -119,7 +121,7 @@ loop:
 			}
 		}
 	}
-	res := procResult{kind: kind, output: buf.String()}
+	res := procResult{kind: kind, output: buf.String(), pid: cmd.Process.Pid}
 	if statusPath != "" {
 		res.status, _ = engine.ReadStatus(statusPath)
 	}
@@ -152,7 +154,7 @@ func fatal2(format string, a ...interface{}) int {
 func childEnv(info *scen.Info, scratch string, extra ...string) []string {
 	env := append(os.Environ(), "GOTRACEBACK=single")
 	if info.Build == "race" {
-		env = append(env, "GORACE=halt_on_error=1 exitcode=66 log_path="+filepath.Join(scratch, "race"))
+		env = append(env, "GORACE=halt_on_error=1 atexit_sleep_ms=0 exitcode=66 log_path="+filepath.Join(scratch, "race"))
 	}
 	return append(env, extra...)
 }
@@ -163,21 +165,15 @@ func execChild(l leg, scratch string, plan []byte, timeout time.Duration) (out e
 	sf := filepath.Join(scratch, "exec-status")
 	_ = os.WriteFile(pf, plan, 0o644)
 	_ = os.Remove(sf)
-	if m, _ := filepath.Glob(filepath.Join(scratch, "race.*")); len(m) > 0 {
-		for _, f := range m {
-			_ = os.Remove(f)
-		}
-	}
 	cmd := exec.Command(l.binary, "exec", "-scenario", l.scenario, "-plan", pf, "-status", sf)
 	cmd.Env = childEnv(l.info, scratch)
 	r := runProc(cmd, sf, timeout)
 	st = r.status
 	stderr = r.output
-	if m, _ := filepath.Glob(filepath.Join(scratch, "race.*")); len(m) > 0 {
-		for _, f := range m {
-			b, _ := os.ReadFile(f)
-			stderr += string(b)
-		}
+	rl := filepath.Join(scratch, fmt.Sprintf("race.%d", r.pid))
+	if b, err := os.ReadFile(rl); err == nil {
+		stderr += string(b)
+		_ = os.Remove(rl)
 	}
 	exitCode = r.exit
 	if r.kind == "start" || r.kind == "timeout" {
@@ -221,7 +217,18 @@ func deathFailure(info *scen.Info, kind string, exitCode int, stderr string, st 
 	case "hang":
 		what = fmt.Sprintf("the in-flight library call did not return within %d s and was killed: ", hangSeconds)
 	}
-	return &engine.Failure{Invariant: inv, Step: int(st.Step), Detail: what + st.Note + " " + firstLines(stderr, 3)}
+	detail := what + st.Note + " " + firstLines(stderr, 3)
+	if strings.Contains(stderr, "WARNING: DATA RACE") {
+		var fr []string
+		for _, line := range strings.Split(stderr, "\n") {
+			line = strings.TrimSpace(line)
+			if strings.HasPrefix(line, "github.com/openacid/low/") && len(fr) < 4 {
+				fr = append(fr, line)
+			}
+		}
+		detail = "the race detector reports conflicting unsynchronised accesses between two simulated reader tasks, in: " + strings.Join(fr, ", ")
+	}
+	return &engine.Failure{Invariant: inv, Step: int(st.Step), Detail: detail}
 }
 
 func runLeg(l leg, tier string, batch uint64, workers int, scratch string) (*legResult, int) {
@@ -236,14 +243,20 @@ func runLeg(l leg, tier string, batch uint64, workers int, scratch string) (*leg
 	// --- determinism self-test: same indices, fresh processes, GOMAXPROCS 1/4/16
 	nDet := 20
 	var ref string
+	selftestDied := ""
 	for _, gmp := range []string{"1", "4", "16"} {
 		cmd := exec.Command(l.binary, "fingerprints", "-scenario", l.scenario, "-tier", tier, "-seed", fmt.Sprint(batch), "-from", "0", "-to", fmt.Sprint(nDet))
 		cmd.Env = childEnv(info, dir, "GOMAXPROCS="+gmp)
 		var so, se bytes.Buffer
 		cmd.Stdout, cmd.Stderr = &so, &se
 		err := cmd.Run()
-		if err != nil && so.Len() == 0 {
-			return nil, fatal2("determinism self-test child failed (%s, GOMAXPROCS=%s): %v\n%s", l.scenario, gmp, err, tail(se.String(), 2000))
+		if err != nil {
+			// The child died before finishing (a Go fatal error or a race-detector
+			// halt inside the code under test would do that). This is not a
+			// determinism verdict: let the workers find and attribute it; if they
+			// find nothing, the death is unexplained and the check exits 2 below.
+			selftestDied = fmt.Sprintf("GOMAXPROCS=%s: %v: %s", gmp, err, tail(se.String(), 600))
+			continue
 		}
 		if ref == "" {
 			ref = so.String()
@@ -251,7 +264,11 @@ func runLeg(l leg, tier string, batch uint64, workers int, scratch string) (*leg
 			return nil, fatal2("determinism self-test: scenario %s differs between processes (GOMAXPROCS=%s)\n--- ref\n%s--- got\n%s", l.scenario, gmp, tail(ref, 1500), tail(so.String(), 1500))
 		}
 	}
-	lr.determ = fmt.Sprintf("%d run indices x 3 fresh processes (GOMAXPROCS 1,4,16): identical plan hashes and event-log fingerprints", nDet)
+	if selftestDied == "" {
+		lr.determ = fmt.Sprintf("%d run indices x 3 fresh processes (GOMAXPROCS 1,4,16): identical plan hashes and event-log fingerprints", nDet)
+	} else {
+		lr.determ = "self-test child died before completing (attributed by the workers): " + selftestDied
+	}
 
 	// --- workers
 	runs := int64(info.QuickRuns)
@@ -265,20 +282,29 @@ func runLeg(l leg, tier string, batch uint64, workers int, scratch string) (*leg
 	} else if v := os.Getenv("VERIF_QUICK_RUNS"); v != "" {
 		fmt.Sscan(v, &runs)
 	}
-	results := make([]procResult, workers)
+	shards := workers
+	if info.ProcsPerWorker > 1 {
+		shards = workers * info.ProcsPerWorker
+		seconds = (seconds + info.ProcsPerWorker - 1) / info.ProcsPerWorker
+	}
+	results := make([]procResult, shards)
 	var wgp sync.WaitGroup
 	overall := time.Duration(seconds+900) * time.Second
-	for i := 0; i < workers; i++ {
+	sem := make(chan struct{}, workers)
+	for i := 0; i < shards; i++ {
 		cmd := exec.Command(l.binary, "worker", "-scenario", l.scenario, "-tier", tier, "-seed", fmt.Sprint(batch),
-			"-worker", fmt.Sprint(i), "-of", fmt.Sprint(workers), "-runs", fmt.Sprint(runs), "-seconds", fmt.Sprint(seconds), "-dir", dir)
+			"-worker", fmt.Sprint(i), "-of", fmt.Sprint(shards), "-runs", fmt.Sprint(runs), "-seconds", fmt.Sprint(seconds), "-dir", dir)
 		cmd.Env = childEnv(info, dir, "GOMAXPROCS=2")
 		wgp.Add(1)
 		go func(i int, cmd *exec.Cmd) {
 			defer wgp.Done()
+			sem <- struct{}{}
+			defer func() { <-sem }()
 			results[i] = runProc(cmd, filepath.Join(dir, fmt.Sprintf("status-%d", i)), overall)
 		}(i, cmd)
 	}
 	wgp.Wait()
+	lr.procs = shards
 
 	for i, pr := range results {
 		stt := pr.status
@@ -313,12 +339,8 @@ func runLeg(l leg, tier string, batch uint64, workers int, scratch string) (*leg
 		// The worker PROCESS died (by itself or under a watchdog). Attribute it
 		// through the status page.
 		stderr := pr.output
-		if m, _ := filepath.Glob(filepath.Join(dir, "race.*")); len(m) > 0 {
-			for _, f := range m {
-				b, _ := os.ReadFile(f)
-				stderr += string(b)
-				_ = os.Remove(f)
-			}
+		if b, err := os.ReadFile(filepath.Join(dir, fmt.Sprintf("race.%d", pr.pid))); err == nil {
+			stderr += string(b) // this process's own race-detector log
 		}
 		kind := deathKind(pr)
 		if stt.Minimising == 1 {
@@ -376,6 +398,9 @@ func runLeg(l leg, tier string, batch uint64, workers int, scratch string) (*leg
 		minPlan, minFail, tried := engine.Minimise(info.Sc, plan, got, execFn, box)
 		mp, _ := json.Marshal(minPlan)
 		lr.violations = append(lr.violations, violation{Scenario: l.scenario, Build: info.Build, Binary: l.binary, Seed: stt.Seed, Fail: minFail, Plan: mp, Death: true, Min: true, Tried: tried})
+	}
+	if selftestDied != "" && len(lr.violations) == 0 {
+		return nil, fatal2("a determinism self-test child of %s died (%s) but no worker reproduced a violation", l.scenario, selftestDied)
 	}
 	lr.wall = time.Since(start).Seconds()
 	return lr, 0
@@ -593,7 +618,7 @@ func writeEvidence(path, prop, tier, level string, batch uint64, workers int, lr
 		determ = append(determ, lr.leg.scenario+": "+lr.determ)
 		real = append(real, lr.leg.info.Real...)
 		stub = append(stub, lr.leg.info.Stub...)
-		legsOut = append(legsOut, map[string]interface{}{"scenario": lr.leg.scenario, "build": lr.leg.info.Build, "runs": lruns, "wall_s": lr.wall})
+		legsOut = append(legsOut, map[string]interface{}{"scenario": lr.leg.scenario, "build": lr.leg.info.Build, "runs": lruns, "wall_s": lr.wall, "worker_processes": lr.procs})
 	}
 	fc, ff, probes, ops := map[string]int64{}, map[string]int64{}, map[string]int64{}, map[string]int64{}
 	for k, v := range counters {
